@@ -60,6 +60,24 @@ def gen_pool_spec(rng):
     return spec
 
 
+def apply_mutation(obj, mop):
+    """A legitimate in-place edit made by the CALLER (not by FlowCal) on one of its own objects."""
+    k = mop['kind']
+    if k == 'values':
+        j = mop['col'] % obj.shape[1] if obj.ndim == 2 else None
+        if obj.ndim == 2:
+            obj[:, j] = obj[:, j] - mop['delta']
+        else:
+            obj[...] = obj - mop['delta']
+    elif k == 'range':
+        r = obj.range()
+        j = mop['col'] % len(r)
+        if r[j] is not None:
+            r[j][mop['end']] = float(mop['value'])
+    elif k == 'text':
+        obj.text[mop['key']] = mop['value']
+
+
 class Pool(object):
     """Objects handed to FlowCal, each buildable from scratch (the pristine twin)."""
 
@@ -68,6 +86,7 @@ class Pool(object):
         self.path = path
         self.fpath = fpath
         self.obj = {}
+        self.mutlog = {}
 
     def make(self, name):
         F = self.F
@@ -93,10 +112,14 @@ class Pool(object):
         raise KeyError(name)
 
     def fresh(self, name):
-        """never-used twin (the view's twin is a view of a fresh parent)"""
+        """never-used twin (the view's twin is a view of a fresh parent); the caller's own in-place edits of the
+        used object (op 'mutate') are part of its state and are replayed on the twin"""
         if name == 'view':
             return self.F.io.FCSData(self.path)[10:50]
-        return self.make(name)
+        t = self.make(name)
+        for mop in self.mutlog.get(name, []):
+            apply_mutation(t, mop)
+        return t
 
     def get(self, name):
         if name not in self.obj:
@@ -128,10 +151,20 @@ def gen_call(rng, plots=True):
     fam = rng.wchoice([('acc', 10), ('prop', 5), ('hist_bins', 10), ('slice', 5), ('to_rfi', 5), ('transform', 3),
                        ('to_mef', 4), ('start_end', 3), ('high_low', 5), ('ellipse', 3), ('gate_density2d', 7),
                        ('stats', 8), ('clustering_gmm', 2), ('selection_std', 5), ('fit', 2), ('get_transform_fxn', 2),
-                       ('io_fn', 2), ('logicle', 2)] +
+                       ('io_fn', 2), ('logicle', 2), ('mutate', 5)] +
                       ([('plot_hist1d', 2), ('plot_density2d', 3), ('plot_scatter2d', 1), ('plot_scatter3d', 1),
                         ('plot_density_and_hist', 2), ('plot_violin', 1), ('plot_std_crv', 1)] if plots else []))
     S = rng.choice(['raw', 'rfi', 'mef', 'view', 'rawf', 'parent'])
+    if fam == 'mutate':
+        kind = rng.choice(['values', 'range', 'text'])
+        op = {'fn': 'mutate', 'obj': rng.choice(['raw', 'rfi', 'mef', 'rawf', 'col']), 'kind': kind}
+        if kind == 'values':
+            op.update(col=rng.randint(0, 4), delta=rng.choice([1, 300, 7]))
+        elif kind == 'range':
+            op.update(col=rng.randint(0, 4), end=rng.choice([0, 1]), value=rng.choice([-50.0, 1.0, 9999.0, 500.0]))
+        else:
+            op.update(key=rng.choice(['$FIL', 'NOTE', '$TIMESTEP']), value=rng.choice(['edited', '0.5']))
+        return op
     if fam == 'acc':
         obj = rng.choice(SAMPLES)
         return {'fn': 'acc', 'obj': obj, 'meth': rng.choice(['range', 'resolution', 'amplification_type',
@@ -158,6 +191,12 @@ def gen_call(rng, plots=True):
             return {'fn': 'to_rfi', 'obj': rng.choice(ARRAYS), 'ch': rng.sample(range(5), k),
                     'at': [[rng.choice([0.0, 4.0]), 1.0] for _ in range(k)], 'ag': [rng.choice([None, 2.0]) for _ in range(k)],
                     'res': [1024] * k}
+        if rng.chance(0.3):
+            # partial overrides: caller-owned lists in which None means "take it from the sample"
+            chs = rng.sample(CH[:4], rng.randint(1, 3))
+            return {'fn': 'to_rfi', 'obj': S, 'ch': chs,
+                    'at': [rng.choice([None, [3.0, 1.0], [0.0, 0.0]]) for _ in chs],
+                    'ag': [rng.choice([None, 2.0]) for _ in chs], 'res': [rng.choice([None, 1024, 256]) for _ in chs]}
         return {'fn': 'to_rfi', 'obj': S, 'ch': gen_ch(rng, forms=('none', 'name', 'list', 'list1'))}
     if fam == 'transform':
         return {'fn': 'transform', 'obj': rng.choice([S, 'arr']), 'ch': gen_ch(rng, forms=('none', 'int', 'list'))}
@@ -334,7 +373,7 @@ def build_call(F, op, target, pool, beads=None):
     if fn == 'to_rfi':
         ch = copy.deepcopy(op['ch'])
         if 'at' in op:
-            kw = {'channels': ch, 'amplification_type': copy.deepcopy(op['at']),
+            kw = {'channels': ch, 'amplification_type': [None if a is None else tuple(a) for a in op['at']],
                   'amplifier_gain': copy.deepcopy(op['ag']), 'resolution': copy.deepcopy(op['res'])}
             return Call(F.transform.to_rfi, [T], kw, label='transform.to_rfi')
         return Call(F.transform.to_rfi, [T], {'channels': ch}, label='transform.to_rfi')
@@ -557,13 +596,17 @@ class C13Machine(Machine):
     assumptions = ['file position of buffer arguments is not part of the fingerprint',
                    'lists returned by accessors are allowed to alias stored state (the property speaks about samples)']
 
+    SANDWICH = [(o, m) for o in ('raw', 'rfi', 'mef', 'rawf', 'col')
+                for m in ({'kind': 'values', 'col': 2, 'delta': 300}, {'kind': 'range', 'col': 2, 'end': 1, 'value': 9999.0},
+                          {'kind': 'range', 'col': 2, 'end': 0, 'value': -50.0})]
+
     # quick: one sixth of the first calls (every object kind, every 6th first call); thorough: every ordered pair
     N_PAIR_RUNS = {'quick': 6 * 22, 'thorough': 6 * 86}
 
     def plan(self, tier):
         if tier == 'quick':
-            return {'runs': 132 + 4200, 'budget_s': 110, 'batch': 6}
-        return {'runs': 516 + 90000, 'budget_s': 1700, 'batch': 12}
+            return {'runs': 132 + 15 + 4200, 'budget_s': 110, 'batch': 6}
+        return {'runs': 516 + 15 + 90000, 'budget_s': 1700, 'batch': 12}
 
     def generate(self, rng, tier, index):
         spec = gen_pool_spec(rng.sub('spec'))
@@ -572,6 +615,12 @@ class C13Machine(Machine):
         fspec['widths'] = [32] * 5
         fspec['events'] = [[float(v) - (50.0 if j in (2, 3) else 0.0) for j, v in enumerate(r)] for r in spec['events']]
         plots = rng.chance(0.25)
+        npairs = self.N_PAIR_RUNS.get(tier, 0)
+        if npairs <= index < npairs + len(self.SANDWICH):
+            # query, caller-side in-place edit of the object, the same query again - for every canonical query
+            obj, mop = self.SANDWICH[index - npairs]
+            return {'arm': 'sandwich', 'obj': obj, 'mop': dict(mop, fn='mutate', obj=obj), 'spec': spec, 'fspec': fspec,
+                    'seed': rng.randint(0, 2 ** 31 - 1)}
         if index < self.N_PAIR_RUNS.get(tier, 0):
             objs = ['raw', 'rfi', 'mef', 'view', 'rawf', 'col']
             obj = objs[index % len(objs)]
@@ -594,6 +643,8 @@ class C13Machine(Machine):
         return {'spec': spec, 'fspec': fspec, 'ops': ops, 'seed': rng.randint(0, 2 ** 31 - 1)}
 
     def summarise(self, case):
+        if case.get('arm') == 'sandwich':
+            return {'arm': 'sandwich', 'obj': case['obj'], 'edit': case['mop']}
         if case.get('arm') == 'pairs':
             return {'arm': 'pairs', 'obj': case['obj'], 'first_call': canonical_queries(case['obj'])[case['a'] % len(canonical_queries(case['obj']))]}
         return {'ops': case['ops'], 'n_events': len(case['spec']['events']), 'version': case['spec']['version']}
@@ -637,6 +688,13 @@ class C13Machine(Machine):
                 a = canon[case['a'] % len(canon)]
                 histories = [[a, bq] for bq in canon]
                 bump(out['probes'], 'ordered_pairs_walked', len(histories))
+            elif case.get('arm') == 'sandwich':
+                canon = canonical_queries(case['obj'])
+                mop = dict(case['mop'])
+                if case['obj'] == 'col':
+                    mop['col'] = 0
+                histories = [[bq, mop, bq] for bq in canon]
+                bump(out['probes'], 'query_edit_query_histories', len(histories))
             else:
                 histories = [case['ops']]
             for ops in histories:
@@ -674,6 +732,15 @@ class C13Machine(Machine):
                 target = pool.get(name)
             else:
                 target = None
+            if op['fn'] == 'mutate':
+                try:
+                    apply_mutation(target, op)
+                    pool.mutlog.setdefault(name, []).append(op)
+                    log.add('caller-mutation', name, op['kind'])
+                    bump(out['probes'], 'caller_side_mutations')
+                except Exception as e:
+                    log.add('caller-mutation-refused', name, op['kind'], type(e).__name__)
+                continue
             try:
                 call = build_call(F, op, target, pool)
             except Exception as e:
@@ -837,6 +904,12 @@ class C13Machine(Machine):
         return None
 
     def shrink_candidates(self, case):
+        if case.get('arm') == 'sandwich':
+            for bq in canonical_queries(case['obj']):
+                c = {k: v for k, v in case.items() if k not in ('arm', 'obj', 'mop')}
+                c['ops'] = [bq, case['mop'], bq]
+                yield c
+            return
         if case.get('arm') == 'pairs':
             canon = canonical_queries(case['obj'])
             a = canon[case['a'] % len(canon)]
